@@ -279,7 +279,7 @@ def regenerate(ctx):
         finally:
             MT.np = saved
         return r.growth_rate, np.zeros((1, 2)), np.zeros((1, 2)), curv.c_eq_alpha, curv.c_eq_beta
-    m.therm = NS(getGrowthAndInterfacialComposition=ggic)
+    m.therm = NS(numElements=3, getGrowthAndInterfacialComposition=ggic)
     Y = NS(composition=[np.array([0.08, 0.1])], drivingForce=[np.array([V('dGv', 9e7)], dtype=object)],
            temperature=[1073.0], precipitateDensity=[np.array([1.0])], Rcrit=np.array([[0.0]]))
     del ars[:]
@@ -311,7 +311,7 @@ def regenerate(ctx):
     mb.RdrivingForceIndex = np.zeros(1, dtype=np.int32)
     mb.PSDXalpha = [np.array([[V('xa0', 0.003)], [V('xa', 0.002)]], dtype=object)]
     mb.PSDXbeta = [np.array([[V('xb0', 0.25)], [V('xb', 0.25)]], dtype=object)]
-    mb.therm = NS(getInterdiffusivity=lambda x, T, removeCache=False: V('D', 1e-19))
+    mb.therm = NS(numElements=2, getInterdiffusivity=lambda x, T, removeCache=False: V('D', 1e-19))
     seenS = []
 
     def effdiff(S):
@@ -428,11 +428,16 @@ def eval_formula_case(c):
         seen['dG'] = float(dG)
         r = MT._growthRateOutputFromCurvature(np.array([0.08, 0.1]), dG, Rr, gExtra, curv)
         return r.growth_rate, r.c_alpha, r.c_beta, r.c_eq_alpha, r.c_eq_beta
-    m.therm = NS(getGrowthAndInterfacialComposition=ggic)
+    m.therm = NS(numElements=3, getGrowthAndInterfacialComposition=ggic)
     Y = NS(composition=[np.array([0.08, 0.1])], drivingForce=[np.array([o['vol']])], temperature=[1073.0],
            precipitateDensity=[np.array([1.0])], Rcrit=np.array([[c['Rprev']]]))
-    gk, _, _ = m._singleGrowthMulti(0, Y)
-    o['growthKWN'] = np.atleast_1d(gk).astype(float).tolist()
+    try:
+        gk, _, _ = m._singleGrowthMulti(0, Y)
+        o['growthKWN'] = np.atleast_1d(gk).astype(float).tolist()
+    except Exception as e:          # changed tree: keep the other sub-results of this case, report at the end
+        import traceback
+        o['growthKWN'] = None
+        o.setdefault('raised', []).append(('_singleGrowthMulti', e, traceback.format_exc()))
     o['dG_handed'] = seen.get('dG')
     # binary growth law on a real model object
     mb = _model('binary')
@@ -444,14 +449,19 @@ def eval_formula_case(c):
     xa = np.array([c['xa'] * k for k in (3.0, 1.5, 1.1, 0.95, 0.8, 0.5, 1.0)])
     xbv = np.full(len(R), c['xb'])
     mb.PSDXalpha = [xa.reshape(-1, 1).copy()]; mb.PSDXbeta = [xbv.reshape(-1, 1).copy()]
-    mb.therm = NS(getInterdiffusivity=lambda x, T, removeCache=False: c['D'])
+    mb.therm = NS(numElements=2, getInterdiffusivity=lambda x, T, removeCache=False: c['D'])
     Yb = NS(composition=[np.array([c['x']])], temperature=[700.0])
     with np.errstate(all='ignore'):
-        gb = mb._singleGrowthBinary(0, Yb)
         S = (c['x'] - xa) / (c['Vm'] * c['vr'] * xbv / c['Vm'] - xa)
         eff = mb.matrixParameters.effectiveDiffusion(S)
+        try:
+            gb = mb._singleGrowthBinary(0, Yb)
+            o['growthBinary'] = np.atleast_1d(gb).astype(float).tolist()
+        except Exception as e:
+            import traceback
+            o['growthBinary'] = None
+            o.setdefault('raised', []).append(('_singleGrowthBinary', e, traceback.format_exc()))
     o['xaB'] = xa.tolist(); o['S'] = S.tolist(); o['eff'] = np.asarray(eff, dtype=float).tolist()
-    o['growthBinary'] = np.atleast_1d(gb).astype(float).tolist()
     return o
 
 
@@ -500,7 +510,7 @@ def check_formula_cases(ctx, res, cases, use_driver=True):
         res.count('formula:unclamped' if unclamped else 'formula:clamped' if o['vol'] > 0 else 'formula:dG<=0')
         desc = dict(c, Rcrit=o['Rcrit'], volDG=o['vol'], f=o['f_nuc'], E_eff=o['E_nuc'])
         if len(res.samples) < 2:
-            res.sample(dict(desc, gExtra_at_Rcrit=o['gExtra_at_Rcrit'], growthKWN=o['growthKWN'][:6]))
+            res.sample(dict(desc, gExtra_at_Rcrit=o['gExtra_at_Rcrit'], growthKWN=(o['growthKWN'] or [])[:6]))
         # ------------------------------------------------ hypotheses "constant aspect ratio, constant strain energy"
         if not (all(close(v, o['f_nuc'], 1e-12) for v in o['f']) and all(close(v, o['E_nuc'], 1e-12, abs(c['E'])) for v in o['E_R'])):
             res.violate('constant-shape-and-strain', 'thermodynamic factor / strain energy differ between size classes or from the value used for nucleation although aspect ratio and strain energy are constant', desc,
@@ -518,10 +528,10 @@ def check_formula_cases(ctx, res, cases, use_driver=True):
                     res.disagree('gen growthMulti vs _growthRateOutputFromCurvature', dict(desc, R=o['R'][j]), o['growthMulti'][j], v)
                 v = mflt(sl['kwn'] + j)
                 sc = abs(o['kf'][j] * c['mc'] / o['R'][j]) * (abs(o['vol'] * c['Vm']) + abs(o['gExtra'][j]) + abs(c['E'] * c['Vm']))
-                if v is None or not close(v, o['growthKWN'][j], 1e-9, sc):
+                if o['growthKWN'] is not None and (v is None or not close(v, o['growthKWN'][j], 1e-9, sc)):
                     res.disagree('gen growthMultiKWN vs PrecipitateModel._singleGrowthMulti', dict(desc, R=o['R'][j]), o['growthKWN'][j], v)
                 b = mflts(sl['bin'] + j)
-                if b is None or not close(b[0], o['S'][j], 1e-9, 1e-300) or not (close(b[1], o['growthBinary'][j], 1e-9) or (o['eff'][j] == 0)):
+                if o['growthBinary'] is not None and (b is None or not close(b[0], o['S'][j], 1e-9, 1e-300) or not (close(b[1], o['growthBinary'][j], 1e-9) or (o['eff'][j] == 0))):
                     res.disagree('gen superSat/growthBinary vs _singleGrowthBinary', dict(desc, j=j), [o['S'][j], o['growthBinary'][j]], b)
             r = mflts(sl['rc'])
             if r is None or not close(r[0], o['Rcrit'], 1e-12) or not close(r[1], o['Gcrit'], 1e-9):
@@ -545,7 +555,9 @@ def check_formula_cases(ctx, res, cases, use_driver=True):
                     res.near_tie_skipped += 1
                     continue
                 want = 1 if rr > 1 else -1
-                for name, gv in (('growth-law', o['growthMulti'][j]), ('kwn-multi', o['growthKWN'][j])):
+                for name, gv in (('growth-law', o['growthMulti'][j]), ('kwn-multi', o['growthKWN'][j] if o['growthKWN'] is not None else None)):
+                    if gv is None:
+                        continue
                     got = (gv > 0) - (gv < 0)
                     if got != want:
                         res.violate('%s-growth-sign:%s' % (name, 'E>0' if c['E'] else 'E=0'),
@@ -557,7 +569,7 @@ def check_formula_cases(ctx, res, cases, use_driver=True):
                 # clamped: classes between the proposal and Rmin grow (stated, not a violation); count them
                 prop = 2 * o['f_nuc'] * c['gamma'] / o['vol']
                 for j in range(nR):
-                    if prop * 1.02 < o['R'][j] < o['Rcrit'] * 0.98 and o['growthKWN'][j] > 0:
+                    if o['growthKWN'] is not None and prop * 1.02 < o['R'][j] < o['Rcrit'] * 0.98 and o['growthKWN'][j] > 0:
                         res.count('formula:clamped-class-below-recorded-Rcrit-grows')
         # binary sign
         den = c['vr'] * c['xb'] - np.array(o['xaB'])
@@ -565,11 +577,20 @@ def check_formula_cases(ctx, res, cases, use_driver=True):
             if den[j] <= 0 or not (o['eff'][j] > 0) or abs(c['x'] - o['xaB'][j]) < 1e-12 * c['x']:
                 res.count('formula:binary-skipped(den<=0 or eff=0)')
                 continue
+            if o['growthBinary'] is None:
+                break
             gv = o['growthBinary'][j]
             want = 1 if c['x'] > o['xaB'][j] else -1
             if ((gv > 0) - (gv < 0)) != want:
                 res.violate('binary-growth-sign', 'binary growth rate does not have the sign of x - x_alpha_i', dict(desc, j=j, xa_i=o['xaB'][j]), gv, 'sign %+d' % want)
                 break
+    raised = [r for o in impl for r in o.get('raised', [])]
+    if raised:
+        res.count('formula:implementation-raised', len(raised))
+        res.extra.setdefault('part_errors', []).append({'part': 'formula:' + raised[0][0], 'count': len(raised), 'error': raised[0][2][-1500:]})
+        print('C12: %d formula sub-call(s) raised, first:\n%s' % (len(raised), raised[0][2]), file=sys.stderr)
+        if not res.violations:
+            raise raised[0][1]
     return res
 
 
@@ -922,9 +943,12 @@ def make_observer(res, tag, desc, stats):
                 stats['skipped-clamped'] += 1; continue
             if not (b[0] < Rc < b[-1]):
                 stats['skipped-Rcrit-outside-grid'] += 1; continue
-            k = int(np.searchsorted(b, Rc))           # b[k-1] < Rc <= b[k]
-            above = [i for i in range(len(b)) if i >= k + 1]
-            below = [i for i in range(len(b)) if i <= k - 2]
+            # the class containing Rcrit is skipped through a relative margin around Rcrit: the binary path carries the
+            # 1 J/mol offset between the driving force and the lookup table (1/dG ~ 1e-3 relative in R), the
+            # multicomponent growth law is exact
+            tol = 2e-2 if m.numberOfElements == 1 else 2e-3
+            above = [i for i in range(len(b)) if b[i] > Rc * (1 + tol)]
+            below = [i for i in range(len(b)) if b[i] < Rc * (1 - tol)]
             stats['states'] += 1; stats['classes'] += len(above) + len(below)
             ba = [i for i in above if not g[i] > 0]
             bb = [i for i in below if not g[i] < 0]
@@ -941,11 +965,17 @@ def run_case(ctx, res, cfg):
     import kwnruns
     from collections import Counter
     stats = Counter()
+    vb = cfg.get('vbeta_over_valpha', 1.0)            # precipitate / matrix molar volume
     if cfg['kind'] == 'binary':
-        m = kwnruns.build_binary(x0=cfg['x0'], T=cfg['T'], gamma=cfg['gamma'], site=cfg.get('site', 'dislocations'))
+        m = kwnruns.build_binary(x0=cfg['x0'], T=cfg['T'], gamma=cfg['gamma'], site=cfg.get('site', 'dislocations'), vratio=1.0 / vb)
     else:
         m = kwnruns.build_ternary(x0=cfg['x0'], T=cfg['T'], gamma=cfg['gamma'])
+        if vb != 1.0:
+            from kawin.precipitation import VolumeParameter
+            m.setVolumeBeta((0.352e-9) ** 3 * vb, VolumeParameter.ATOMIC_VOLUME, 4)
     pp = m.precipitateParameters[0]
+    if abs(pp.volume.Vm / m.matrixParameters.volume.Vm - vb) > 1e-9 * vb:
+        raise RuntimeError('run_case: molar volume ratio not as configured')
     if cfg.get('shape'):
         pp.shapeFactor.setPrecipitateShape(cfg['shape'], cfg['ar'])
     if cfg.get('E'):
@@ -953,7 +983,7 @@ def run_case(ctx, res, cfg):
     with warnings.catch_warnings():
         warnings.simplefilter('ignore')
         with np.errstate(all='ignore'):
-            steps = kwnruns.run(m, cfg['time'], max_steps=cfg['steps'], observer=make_observer(res, cfg['kind'] + (':E>0' if cfg.get('E') else ''), cfg, stats))
+            steps = kwnruns.run(m, cfg['time'], max_steps=cfg['steps'], observer=make_observer(res, cfg['kind'] + (':E>0' if cfg.get('E') else '') + (':Vb!=Va' if vb != 1.0 else ''), cfg, stats))
     res.traces += 1
     res.case(('run', repr(sorted(cfg.items()))), stats['states'] > 0)
     for k, v in stats.items():
@@ -966,15 +996,22 @@ def part_runs(ctx, res):
     r = ctx.rng
     cfgs = [dict(kind='binary', x0=4e-3, T=723.15, gamma=0.1, time=3600 * 5, steps=ctx.n(500, 1800)),
             dict(kind='ternary', x0=(0.098, 0.083), T=1073.0, gamma=0.023, time=1e4, steps=ctx.n(40, 250))]
-    cfgs.append(dict(kind='ternary', x0=(0.098, 0.083), T=1073.0, gamma=0.023, time=1e4, steps=ctx.n(12, 80), E=10 ** r.uniform(6.3, 7.3)))
+    # strain energy and unequal molar volumes (every shipped example uses Vbeta = Valpha for multicomponent systems)
+    cfgs.append(dict(kind='ternary', x0=(0.098, 0.083), T=1073.0, gamma=0.023, time=1e4, steps=ctx.n(12, 80), E=10 ** r.uniform(6.3, 7.3),
+                     vbeta_over_valpha=r.uniform(1.1, 1.3)))
+    cfgs.append(dict(kind='ternary', x0=(0.098, 0.083), T=1073.0, gamma=0.023, time=1e4, steps=ctx.n(12, 80), vbeta_over_valpha=r.uniform(0.75, 0.9)))
+    cfgs.append(dict(kind='binary', x0=4e-3, T=723.15, gamma=0.1, time=3600, steps=ctx.n(60, 400), vbeta_over_valpha=r.uniform(1.05, 1.2)))
     if ctx.thorough:
         for _ in range(3):
             cfgs.append(dict(kind='binary', x0=10 ** r.uniform(-2.7, -2.2), T=r.uniform(650, 760), gamma=r.uniform(0.07, 0.14), time=3600 * 3, steps=600,
-                             site=r.choice(['dislocations', 'bulk'])))
+                             site=r.choice(['dislocations', 'bulk']), vbeta_over_valpha=r.choice([1.0, r.uniform(0.85, 1.2)])))
         cfgs.append(dict(kind='binary', x0=4e-3, T=723.15, gamma=0.1, time=3600, steps=400, shape='needle', ar=2.0, E=2e7))
-        cfgs.append(dict(kind='ternary', x0=(0.10, 0.085), T=r.uniform(1040, 1090), gamma=r.uniform(0.02, 0.03), time=1e4, steps=120, shape='plate', ar=1.5, E=5e6))
+        cfgs.append(dict(kind='ternary', x0=(0.10, 0.085), T=r.uniform(1040, 1090), gamma=r.uniform(0.02, 0.03), time=1e4, steps=120, shape='plate', ar=1.5, E=5e6,
+                         vbeta_over_valpha=r.uniform(0.8, 1.25)))
+    errors = []
     for cfg in cfgs:
-        run_case(ctx, res, cfg)
+        _guard(errors, res, 'run:' + cfg['kind'], lambda cfg=cfg: run_case(ctx, res, cfg))
+    _finish(errors, res)
 
 
 # =====================================================================================================
@@ -989,20 +1026,48 @@ def corr(ctx):
                 '(3) monitored thermodynamic grid over T, g, x (Al-Zr, all four driving-force methods). (4) observer callbacks of real Al-Zr and Ni-Cr-Al runs. distinct = parameter tuple / (T, g, method) / run configuration')
     res.monitored = list(MONITORED)
     import kwnruns
-    part_formulas(ctx, res, ctx.n(800, 20000))
-    part_scan(ctx, res)
-    th = kwnruns.therm_binary()
-    Ts = [ctx.rng.uniform(580, 880) for _ in range(ctx.n(8, 40))]
-    part_thermo(ctx, res, th, 'Al-Zr', 'AL3ZR', Ts)
+    errors = []
+    _guard(errors, res, 'formulas', lambda: part_formulas(ctx, res, ctx.n(800, 20000)))
+    _guard(errors, res, 'scan', lambda: part_scan(ctx, res))
+
+    def thermo():
+        th = kwnruns.therm_binary()
+        Ts = [ctx.rng.uniform(580, 880) for _ in range(ctx.n(8, 40))]
+        part_thermo(ctx, res, th, 'Al-Zr', 'AL3ZR', Ts)
+    _guard(errors, res, 'thermo', thermo)
     if ctx.thorough:
-        cu = therm_cuti()
-        if cu is not None:
-            part_thermo(ctx, res, cu, 'Cu-Ti', 'CU4TI', [ctx.rng.uniform(550, 750) for _ in range(5)], stoich=False)
-            res.count('thermo:Cu-Ti-loaded')
-        else:
-            res.count('thermo:Cu-Ti-not-available')
-    part_runs(ctx, res)
+        def cuti():
+            cu = therm_cuti()
+            if cu is not None:
+                part_thermo(ctx, res, cu, 'Cu-Ti', 'CU4TI', [ctx.rng.uniform(550, 750) for _ in range(5)], stoich=False)
+                res.count('thermo:Cu-Ti-loaded')
+            else:
+                res.count('thermo:Cu-Ti-not-available')
+        _guard(errors, res, 'thermo-CuTi', cuti)
+    _guard(errors, res, 'runs', lambda: part_runs(ctx, res))
+    _finish(errors, res)
     return res
+
+
+def _guard(errors, res, name, fn):
+    """a sub-part that raises (changed tree: the implementation raises on a generated input, a trace guard no longer
+    holds, a stub no longer fits) must not take the other sub-parts down: the exception is kept and the run goes on"""
+    import traceback
+    try:
+        fn()
+    except Exception as e:
+        tb = traceback.format_exc()
+        print('C12: sub-part %s raised (continuing with the other parts)\n%s' % (name, tb), file=sys.stderr)
+        errors.append((name, e, tb))
+        res.count('part-raised:' + name)
+        res.extra.setdefault('part_errors', []).append({'part': name, 'error': tb[-1500:]})
+
+
+def _finish(errors, res):
+    """no failing input found by the parts that ran, but a part raised: hand the exception to vcheck (it records the broken
+    obligation and starts the search); with a failing input in hand the violation is what gets reported"""
+    if errors and not res.violations:
+        raise errors[0][1]
 
 
 _CUTI = []
@@ -1037,9 +1102,10 @@ def search(ctx, broken):
         if ctx.rng.random() < 0.5:
             c['E'] = 10 ** ctx.rng.uniform(5.5, 8.3); c['dG'] = abs(c['dG'])
         cases.append(c)
-    check_formula_cases(ctx, res, cases, use_driver=False)
+    errors = []
+    _guard(errors, res, 'search-formulas', lambda: check_formula_cases(ctx, res, cases, use_driver=False))
     if not res.violations:
-        part_runs(ctx, res)
+        _guard(errors, res, 'search-runs', lambda: part_runs(ctx, res))
     return res
 
 
@@ -1051,7 +1117,7 @@ def replay(ctx, entry):
     if all(k in c for k in keys):
         check_formula_cases(ctx, res, [{k: c[k] for k in keys}], use_driver=False)
     elif 'kind' in c and 'steps' in c:
-        cfg = {k: c[k] for k in ('kind', 'x0', 'T', 'gamma', 'time', 'steps', 'site', 'shape', 'ar', 'E') if k in c}
+        cfg = {k: c[k] for k in ('kind', 'x0', 'T', 'gamma', 'time', 'steps', 'site', 'shape', 'ar', 'E', 'vbeta_over_valpha') if k in c}
         if isinstance(cfg['x0'], list):
             cfg['x0'] = tuple(cfg['x0'])
         run_case(ctx, res, cfg)
